@@ -665,7 +665,7 @@ class Length(object):
             return self
         if self.units == "pt":
             if other.units == "px" or other.units == "":
-                self.amount += other.amount / 4.0 / 3.0
+                self.amount += other.amount * 3.0 / 4.0
             elif other.units == "pc":
                 self.amount += other.amount * 12.0
             else:
